@@ -255,8 +255,8 @@ def _r5_reducers(run, ev):
         elif d[0] == "definite":
             run.violated("C13.R5", f, fx["set_data"][0].node, "%s: per-tile value deviates from its recurrence: %s" % (name, termdiff.describe(d)), kind="reducer-" + name)
         else:
-            run.violated("C13.R5", f, fx["set_data"][0].node, "%s: per-tile value %s does not follow the recurrence %s" % (name, show(got)[:140], show(want)[:140]),
-                         kind="reducer-" + name)
+            run.undecided("C13.R5", f, fx["set_data"][0].node, "%s: per-tile value %s cannot be related to the recurrence %s" % (name, show(got)[:140], show(want)[:140]),
+                          kind="reducer-structure-" + name)
         # result: riter.result() (ops: [1])
         rets = [t for pc, t, n in fx["r"].returns if "result" in show(t)]
         if not rets:
